@@ -61,11 +61,14 @@ CHECKS = {
          "layer B simulates layer A); the three sources answer every count in N like the reference source; TERMINATION "
          "(TermProofs): every successful decode of a non-zero-width type consumes at least one byte of its region, a fuel "
          "linear in the unread bytes suffices for every type without sequences of zero-width elements (recursive "
-         "declarations included), and without that restriction a fuel exists (the count governs it: F14). Allocation and "
-         "stack depth are measured, not proved. Tie: malformed streams (exhaustive short strings, "
+         "declarations included), and without that restriction fuel_bound + 2^31 suffices (the count governs it: F14). SIZE "
+         "of the result (SizeProofs): false with de-duplicated strings (C05_size_refuted: known finding F30), linear in the "
+         "bytes consumed for every type and environment without them (C05_size_linear). Allocator behaviour and stack depth "
+         "are measured, not proved. Tie: malformed streams (exhaustive short strings, "
          "structure-aware mutants, random) in release and debug builds with catch_unwind, watchdog, RLIMIT_AS, counting "
          "allocator.",
-         "6 C05", "Known finding F14 (zero-width sequence elements) excluded from the stream and re-confirmed each run; "
+         "6 C05", "Known finding F30 (back-references to de-duplicated strings are expanded: memory quadratic in the input) "
+         "re-confirmed each run with its control; known finding F14 (zero-width sequence elements) excluded from the stream and re-confirmed each run; "
          "known finding F27 (stack exhaustion beyond ~3000 nesting levels; the model has no stack) probed each run at "
          "100/1000/10000/100000 levels. " + TB),
  "C06": ("Theorems: whatever layer B accepts is exactly what the reference decoder assigns (sound, complete, errors "
